@@ -79,6 +79,29 @@ Theorem msgpack_roundtrip : forall fmt pf,
 Proof. exact JsonProofs.msgpack_roundtrip. Qed.
 Print Assumptions msgpack_roundtrip.
 
+(* encodings are values: several encodings kept alive and decoded in any order each give their
+   own original (histories; the harness observes the real builtins on interleaved histories) *)
+Theorem history_json_roundtrip : forall fmt pf,
+  (forall sci b, float_finite b = true -> is_json_number (float_token fmt sci b) = true ->
+                 pf (float_token fmt sci b) = b) ->
+  (forall b, float_finite b = true -> has_dot_e (fmt true b) = true) ->
+  forall vs, Forall (fun v => data fmt v = true /\ no_reserved_keys v = true) vs ->
+  map (fun v => unjson pf (to_json fmt v)) vs = map (fun v => Ok (norm v)) vs.
+Proof. exact JsonProofs.history_json_roundtrip. Qed.
+Print Assumptions history_json_roundtrip.
+
+Theorem history_msgpack_roundtrip : forall fmt pf,
+  (forall sci b, float_finite b = true -> is_json_number (float_token fmt sci b) = true ->
+                 pf (float_token fmt sci b) = b) ->
+  (forall b, float_finite b = true -> has_dot_e (fmt true b) = true) ->
+  forall (mp_enc : jtree -> list Z) (mp_dec : list Z -> option jtree),
+  (forall t, mp_dec (mp_enc t) = Some t) ->
+  forall vs, Forall (fun v => data fmt v = true /\ no_reserved_keys v = true) vs ->
+  map (fun v => match msgpack fmt mp_enc v with Some b => unmsgpack pf mp_dec b | None => Crash end) vs
+  = map (fun v => Ok (norm v)) vs.
+Proof. exact JsonProofs.history_msgpack_roundtrip. Qed.
+Print Assumptions history_msgpack_roundtrip.
+
 (* ---- 4. the side condition no_reserved_keys cannot be dropped: the full statement
         "forall v, data v -> unjson (to_json v) = Ok (norm v)" is FALSE of the code
         (finding reserved-field-names; witness {Atype:"evil" a:2}, replayed on the real code) ---- *)
